@@ -67,7 +67,7 @@ fn run(ctx: &mut Ctx) {
         ctx.inconclusive(format!("binary {} not built", exe.display()));
         return;
     }
-    let n = ctx.tier.pick(800, 30_000);
+    let n = ctx.tier.pick(800, 100_000);
     ctx.cases("runs", n, |ctx, i, rng| {
         ctx.eval();
         let dir = workdir(ctx, i);
